@@ -33,76 +33,116 @@ def run(ctx):
     loops = [n for n in body if isinstance(n, ast.For) and src(n.iter) == contents]
     ctx.expect_count('R1', 'fragment loop', len(loops), 1)
     lp = loops[0]
-    frag = lp.target.id
-    at = f'{f.module.relpath}:{lp.lineno}'
-    # initial values
+    if not isinstance(lp.target, ast.Name):
+        raise AnalysisError(f'{f.loc}: the fragment loop has no simple loop variable')
+    L = lp.lineno
+    FRAG = f'{lp.target.id}@{L}'
+    at = f'{f.module.relpath}:{L}'
+    r = ctx.prog.resolve(f.module, 'create')
+    ok_create_fn = r is not None and r.kind == 'def' and r.value.qualname == f'{N.GENERIC}.create'
+    # initial values of the names bound before the loop (whatever the path)
     init = {}
     for st in body[:body.index(lp)]:
-        if isinstance(st, ast.Assign) and isinstance(st.targets[0], ast.Name):
-            init[st.targets[0].id] = src(st.value)
-    sps = symex.sym_paths(lp.body)
-    ctx.check(len(sps) == 1 and sps[0].end == 'fall', 'R1', at, f.qualname, 'single-path-per-fragment',
-              'one unconditional path per fragment (no fragment is skipped or treated specially)',
-              f'{len(sps)} paths through the fragment loop: some fragments are handled differently')
-    if len(sps) != 1:
-        return
-    sp = sps[0]
-    env = sp.env
-    # which locals hold text / low / document
-    creates = [e for e in sp.events if e.kind == 'assign' and isinstance(e.expr, ast.Call) and F.is_name(e.expr.func, 'create')]
-    r = ctx.prog.resolve(f.module, 'create')
-    okc = len(creates) == 1 and r is not None and r.kind == 'def' and r.value.qualname == f'{N.GENERIC}.create'
-    ctx.check(okc, 'R1', at, f.qualname, 'one-import-per-fragment', 'each iteration imports once with the API function create')
-    if not okc:
-        return
-    text_arg = creates[0].expr.args[0]
-    text_vars = [v for v, s in init.items() if s == "''"]
-    textv = text_vars[0] if text_vars else None
-    ok_text = textv is not None and src(text_arg) in (f'{textv} + ({sepn} + {frag})', f'{textv} + {sepn} + {frag}') \
-        and src(env.get(textv)) == src(text_arg)
-    ctx.check(ok_text, 'R1', at, f.qualname, 'prefix-text',
-              'the imported text is the text accumulated so far + separator + this fragment, and is carried to the next iteration',
-              f'the imported text is `{src(text_arg)[:80]}` (accumulator `{textv}` becomes `{src(env.get(textv))[:60] if textv else None}`)')
-    apps = [e for e in sp.events if e.kind == 'expr' and isinstance(e.expr, ast.Call) and isinstance(e.expr.func, ast.Attribute)
-            and e.expr.func.attr == 'append']
-    ok_one = len(apps) == 1 and len(apps[0].expr.args) == 1 and isinstance(apps[0].expr.args[0], ast.Tuple) and len(apps[0].expr.args[0].elts) == 2
-    ctx.check(ok_one, 'R1', at, f.qualname, 'one-pair-per-fragment', 'exactly one (low, high) pair is appended per fragment',
-              f'{len(apps)} appends per fragment')
-    if not ok_one:
-        return
-    lowe, highe = apps[0].expr.args[0].elts
-    idxv = src(apps[0].expr.func.value)
-    doc_call = src(creates[0].expr)
-    want_high = f'{doc_call}[0].measures_count()'
-    ctx.check(src(highe) == want_high, 'R1', at, f.qualname, 'high-is-prefix-measure-count',
-              'high = measure count of the document imported from the prefix text', f'high is `{src(highe)[:90]}`')
-    lowv = src(lowe)
-    ctx.check(isinstance(lowe, ast.Name) and init.get(lowv) == '0', 'R1', at, f.qualname, 'first-low-is-zero',
-              'low is the loop-carried index, which starts at 0', f'low is `{lowv}` with initial value {init.get(lowv)}')
-    nxt = env.get(lowv)
-    ok_next = False
-    if nxt is not None:
-        try:
-            a = affine(nxt)
-            ok_next = a.terms == {want_high: 1} and a.const == 1
-        except NotAffine:
-            ok_next = False
-    ctx.check(ok_next, 'R1', at, f.qualname, 'next-low-is-high-plus-one', 'the next low is this high + 1 (pairs are consecutive)',
-              f'the next low is `{src(nxt)[:80] if nxt is not None else None}`')
-    ctx.check(init.get(idxv) == '[]', 'R1', at, f.qualname, 'index-list-fresh', 'the index list starts empty')
-    # returned document = last import
-    docv = None
-    for e in sp.events:
-        if e.kind == 'assign' and e.node is creates[0].node:
-            docv = e.target[0] if e.target else None
-    rets = [n for n in body if isinstance(n, ast.Return)]
-    ok_ret = len(rets) == 1 and src(rets[0].value) == f'({docv}, {idxv})'
-    ctx.check(ok_ret, 'R1', f'{f.module.relpath}:{rets[0].lineno if rets else lp.lineno}', f.qualname, 'returns-last-document',
-              'concat returns the document imported from the full text together with the index list',
-              f'concat returns `{src(rets[0].value) if rets else None}`')
-    # separator default and empty input
-    okd = any(isinstance(n, ast.If) and src(n.test) == f'{sepn} is None' and any(src(s) == f"{sepn} = '\\n'" for s in n.body) for n in body)
-    ctx.check(okd, 'R1', f.loc, f.qualname, 'separator-default', 'separator=None means a newline')
+        for n in ast.walk(st):
+            if isinstance(n, ast.Assign) and isinstance(n.targets[0], ast.Name):
+                init.setdefault(n.targets[0].id, set()).add(src(n.value))
+
+    def flat(x, out):
+        if isinstance(x, ast.BinOp) and isinstance(x.op, ast.Add):
+            flat(x.left, out)
+            flat(x.right, out)
+        else:
+            out.append(x)
+        return out
+    facts = {k: [] for k in ('paths', 'import', 'text', 'carried', 'sep', 'pair', 'high', 'low', 'ret', 'cond')}
+    n_iter = 0
+    for sp in symex.func_sym_paths(f):
+        entered = [e for e in sp.events if e.kind == 'iter' and e.node is lp]
+        if not entered or sp.end == 'raise':
+            continue
+        n_iter += 1
+        in_loop = {id(n) for b_ in lp.body for n in ast.walk(b_)}
+        inside = [e for e in sp.events if id(e.node) in in_loop]
+        pc = sp.condition()
+        # tests inside the iteration may only ask whether pairs were recorded before
+        loop_tests = [e for e in inside if e.kind == 'cond']
+        creates = [e for e in inside if e.kind == 'assign' and isinstance(e.expr, ast.Call) and F.is_name(e.expr.func, 'create')]
+        facts['import'].append(len(creates) == 1 and ok_create_fn and len(creates[0].expr.args) >= 1)
+        if not (len(creates) == 1 and creates[0].expr.args):
+            continue
+        text = creates[0].expr.args[0]
+        parts = flat(text, [])
+        acc = parts[0] if parts and isinstance(parts[0], ast.Name) and parts[0].id.endswith(f'@iter{L}') else None
+        accv = acc.id[:-len(f'@iter{L}')] if acc is not None else None
+        ok_text = acc is not None and len(parts) == 3 and src(parts[2]) == FRAG and init.get(accv) == {"''"}
+        facts['text'].append(ok_text)
+        facts['carried'].append(ok_text and src(sp.env.get(accv)) == src(text))
+        if ok_text:
+            se = parts[1]
+            none_atom = f'{sepn} is None'
+            if F.forced(pc, none_atom, True):
+                facts['sep'].append(isinstance(se, ast.Constant) and se.value == '\n')
+            elif F.forced(pc, none_atom, False):
+                facts['sep'].append(src(se) == sepn)
+            else:
+                facts['sep'].append(src(se) in (f"'\\n' if {sepn} is None else {sepn}", f"{sepn} if {sepn} is not None else '\\n'"))
+        apps = [e for e in inside if e.kind == 'expr' and isinstance(e.expr, ast.Call) and isinstance(e.expr.func, ast.Attribute)
+                and e.expr.func.attr == 'append' and isinstance(e.node.value.func.value, ast.Name)]
+        ok_one = len(apps) == 1 and len(apps[0].expr.args) == 1 and isinstance(apps[0].expr.args[0], ast.Tuple) and len(apps[0].expr.args[0].elts) == 2
+        facts['pair'].append(ok_one)
+        if not ok_one:
+            continue
+        idxv = apps[0].node.value.func.value.id
+        lowe, highe = apps[0].expr.args[0].elts
+        want_high = f'{src(creates[0].expr)}[0].measures_count()'
+        facts['high'].append(src(highe) == want_high and init.get(idxv) == {'[]'})
+        # low: the loop-carried index (starts at 0, next = high + 1), or derived from the last recorded pair
+        nonempty_atoms = [a for a in G.atoms_of(pc) if a in (idxv, f'nonempty({idxv})')]
+        if isinstance(lowe, ast.Name) and lowe.id.endswith(f'@iter{L}'):
+            lv = lowe.id[:-len(f'@iter{L}')]
+            nxt = sp.env.get(lv)
+            ok_low = init.get(lv) == {'0'}
+            try:
+                a_ = affine(nxt) if nxt is not None else None
+                ok_low = ok_low and a_ is not None and a_.terms == {want_high: 1} and a_.const == 1
+            except NotAffine:
+                ok_low = False
+            facts['low'].append(ok_low)
+            facts['cond'].append(not loop_tests)
+        elif nonempty_atoms and F.forced(pc, nonempty_atoms[0], True):
+            try:
+                a_ = affine(lowe)
+                facts['low'].append(a_.terms == {f'{idxv}[-1][1]': 1} and a_.const == 1)
+            except NotAffine:
+                facts['low'].append(False)
+            facts['cond'].append(all(src(e.expr) in (idxv, f'len({idxv}) > 0', f'len({idxv}) != 0', f'len({idxv}) == 0', f'not {idxv}') for e in loop_tests))
+        elif nonempty_atoms and F.forced(pc, nonempty_atoms[0], False):
+            facts['low'].append(isinstance(lowe, ast.Constant) and lowe.value == 0)
+            facts['cond'].append(all(src(e.expr) in (idxv, f'len({idxv}) > 0', f'len({idxv}) != 0', f'len({idxv}) == 0', f'not {idxv}') for e in loop_tests))
+        else:
+            facts['low'].append(False)
+            facts['cond'].append(False)
+        if sp.end == 'return':
+            docv = creates[0].target[0] if creates[0].target else None
+            v = sp.value
+            facts['ret'].append(isinstance(v, ast.Tuple) and len(v.elts) == 2 and src(v.elts[1]) == idxv
+                                and src(v.elts[0]) in (f'{src(creates[0].expr)}[0]', str(docv)))
+    def allok(k):
+        return bool(facts[k]) and all(facts[k])
+    ctx.check(n_iter > 0 and allok('cond'), 'R1', at, f.qualname, 'single-path-per-fragment',
+              'every fragment is handled alike (the only test inside the loop may be whether a pair was recorded before)',
+              'the fragment loop branches: some fragments are handled differently')
+    ctx.check(allok('import'), 'R1', at, f.qualname, 'one-import-per-fragment', 'each iteration imports once with the API function create')
+    ctx.check(allok('text') and allok('carried'), 'R1', at, f.qualname, 'prefix-text',
+              'the imported text is the text accumulated so far + separator + this fragment, and is carried to the next iteration')
+    ctx.check(allok('pair'), 'R1', at, f.qualname, 'one-pair-per-fragment', 'exactly one (low, high) pair is appended per fragment')
+    ctx.check(allok('high'), 'R1', at, f.qualname, 'high-is-prefix-measure-count',
+              'high = measure count of the document imported from the prefix text; the index list starts empty')
+    ctx.check(allok('low'), 'R1', at, f.qualname, 'next-low-is-high-plus-one',
+              'the first low is 0 and every later low is the previous high + 1 (pairs are consecutive)')
+    ctx.check(allok('ret'), 'R1', at, f.qualname, 'returns-last-document',
+              'concat returns the document imported from the full text together with the index list')
+    ctx.check(allok('sep'), 'R1', f.loc, f.qualname, 'separator-default', 'separator=None means a newline')
     pub = ctx.prog.func(f'{N.PUBLIC}.concat')
     pr = symex.returns(pub)
     okp = len(pr) == 1 and F.same(ctx, pub, pr[0][1], f'generic.Generic.concat(contents={pub.params[0]}, separator=separator)')
